@@ -1444,9 +1444,12 @@ class VacancyMediated(object):
             GF = np.array([self.GFcalc(PS.i, PS.j, PS.dx)
                            for PS in
                            [self.GFstarset.states[s[0]] for s in self.GFstarset.stars]])
+            # store copies: Diffusivity() / biascorrection() hand out the GF calculator's own arrays
             self.GFvalues[vTK] = GF.copy()
-            self.Lvvvalues[vTK] = L0vv
-            self.etavvalues[vTK] = etav
+            self.Lvvvalues[vTK] = np.array(L0vv, copy=True)
+            self.etavvalues[vTK] = np.array(etav, copy=True)
+        # ... and never hand out the cached array itself
+        L0vv = np.array(L0vv, copy=True)
 
         # 2. set up probabilities for solute-vacancy configurations
         probVsites = np.array([np.exp(min(bFV) - bFV[wi]) for wi in self.invmap])
